@@ -159,7 +159,7 @@ Definition n_gt (a b : num) : num := n_lt b a.
 
 (* np.isclose(a, b) with the default rtol = 1e-05, atol = 1e-08, computed in binary64 as NumPy does:
    abs(a - b) <= atol + rtol * abs(b) *)
-Definition ATOL : spec_float := S754_finite false 6066930334832442 (-79).    (* 1e-08 *)
+Definition ATOL : spec_float := S754_finite false 6044629098073146 (-79).    (* 1e-08 *)
 Definition RTOL : spec_float := S754_finite false 5902958103587057 (-69).    (* 1e-05 *)
 Definition isclose (a b : num) : bool :=
   let x := to_real a in let y := to_real b in
